@@ -305,6 +305,53 @@ class KaniBuild:
             self.units[hname] = Unit(hname, TABLES[p.nt], "P", ["table.spelling_emits_its_mnemonic"], "production",
                                      p.sig + "  (assembler)", prs, {"kind": "table", "spelling": sp}, group="pp_table")
             nsyn += 1
+        # ---- assembler number literals (C14, BOUNDED in the number of digits): a constant is accepted iff it is in
+        #      the range of its operand type, with exactly its value; otherwise it is refused
+        NUM = {'r#"[0-9]+"#': ("", 10), 'r#"0(x|X)[0-9A-Fa-f]+"#': ("0x", 16), 'r#"0(b|B)[0-1]+"#': ("0b", 2), 'r#"-[0-9]+"#': ("-", 10)}
+        DIG = {("u8", 10): 4, ("u8", 16): 3, ("u8", 2): 10, ("u16", 10): 6, ("u16", 16): 5, ("u16", 2): 18,
+               ("i8", 10): 4, ("i16", 10): 6, ("u32", 10): 11, ("u32", 16): 9, ("u32", 2): 34}
+        for p in pprods:
+            if p.nt not in ("u_byte_num", "u_word_num", "s_byte_num", "s_word_num", "raw_addr") or len(p.syms) != 1 or p.syms[0] not in NUM:
+                continue
+            prefix, radix = NUM[p.syms[0]]
+            rt = re.match(r"Result<(\w+),", pacts[p.action].ret)
+            if not rt or (rt.group(1), radix) not in DIG:
+                continue
+            ty = rt.group(1)
+            nd = DIG[(ty, radix)]
+            if nd > 12:
+                continue          # 18/34-digit binary words: left out (cost); stated in the evidence
+            neg = prefix == "-"
+            hname = f"b_pp_{p.nt}_{ {10: 'dec', 16: 'hex', 2: 'bin'}[radix] }{'_neg' if neg else ''}"
+            plen = len(prefix)
+            digit_ok = {10: "d >= b'0' && d <= b'9'", 2: "d == b'0' || d == b'1'",
+                        16: "(d >= b'0' && d <= b'9') || (d >= b'a' && d <= b'f') || (d >= b'A' && d <= b'F')"}[radix]
+            dval = {10: "(d - b'0') as u64", 2: "(d - b'0') as u64",
+                    16: "(if d <= b'9' { d - b'0' } else if d >= b'a' { d - b'a' + 10 } else { d - b'A' + 10 }) as u64"}[radix]
+            lim = {"u8": ("255", "v as u64 == val"), "u16": ("65535", "v as u64 == val"), "i8": ("128", "(v as i64) == -(val as i64)"),
+                   "i16": ("32768", "(v as i64) == -(val as i64)"), "u32": ("4294967295", "v as u64 == val % 1048576")}[ty]
+            pre = "".join(f"        buf[{i}] = b'{c}';\n" for i, c in enumerate(prefix))
+            body = (f"        let ctx = {V}::forged::<util::Context>();\n        let out = {V}::forged::<util::Output>();\n"
+                    f"        let mut buf = [b'0'; {plen + nd}];\n{pre}"
+                    f"        let in_nd: usize = kani::any();\n        kani::assume(in_nd >= 1 && in_nd <= {nd});\n"
+                    f"        let mut val: u64 = 0;\n        let mut i = 0;\n"
+                    f"        while i < {nd} {{\n            if i < in_nd {{\n                let d: u8 = kani::any();\n"
+                    f"                kani::assume({digit_ok});\n                buf[{plen} + i] = d;\n"
+                    f"                val = val * {radix} + {dval};\n            }}\n            i += 1;\n        }}\n"
+                    f"        let text = unsafe {{ std::str::from_utf8_unchecked(&buf[..{plen} + in_nd]) }};\n"
+                    f"        let r = __action{p.action}(ctx, out, \"\", (0, text, 0));\n"
+                    f"        match r {{\n"
+                    f"            Ok(v) => {{ assert!(val <= {lim[0]}, \"number.out_of_range_is_refused\"); assert!({lim[1]}, \"number.accepted_with_its_value\"); }}\n"
+                    f"            Err(_) => {{ assert!(val > {lim[0]}, \"number.in_range_is_accepted\"); }}\n        }}\n"
+                    f"        kani::cover!(true, \"reachable\");")
+            # the panic path of str slicing formats the string (Display): that formatting code dominates CBMC's cost and
+            # is irrelevant here (a failed slice is still a failed assertion through the stub's panic)
+            pmod += ["    #[kani::proof]", f"    #[kani::unwind({nd + 4})]",
+                     f"    #[kani::stub(core::str::slice_error_fail, {V}::slice_fail)]", f"    fn {hname}() {{", body, "    }"]
+            self.units[hname] = Unit(hname, ["C14"], "P", ["number.out_of_range_is_refused", "number.accepted_with_its_value", "number.in_range_is_accepted"],
+                                     "production", p.sig + "  (assembler)", prs, {"kind": "number", "radix": radix, "type": ty}, group="pp_number",
+                                     bounded=f"literals of at most {nd} digits (radix {radix}, type {ty}); unwind({nd + 4}) with unwinding assertions")
+            nsyn += 1
         pmod.append("}")
         if nsyn:
             an.append(prs, "\n".join(pmod) + "\n")
@@ -346,7 +393,12 @@ class KaniBuild:
                 want[fqn] = hints[fqn.split("::")[-1]]
         meta = cbmc_driver.codegen(self.dst, list(want.keys()), log)
         gdir = os.path.join(os.path.dirname(self.dst), "goto")
-        self.own = cbmc_driver.run_many(self.dst, meta, want, jobs, gdir, log, timeout=240)
+        slowok = {self.units[n].fq: want[self.units[n].fq] for n in plain if self.units[n].bounded}
+        fast = {k: v for k, v in want.items() if k not in slowok}
+        self.own = cbmc_driver.run_many(self.dst, meta, fast, jobs, gdir, log, timeout=240)
+        if slowok:
+            # bounded stand-ins (string / digit loops): allowed more time
+            self.own.update(cbmc_driver.run_many(self.dst, meta, slowok, jobs, gdir, log, timeout=int(os.environ.get("VERIF_BOUNDED_TIMEOUT", "1500"))))
         # the SMT back end occasionally does not finish on a 1 MB-memory unit; SAT with arrays as uninterpreted
         # functions always has so far (~80 s, 11 GB each, hence at most 4 at a time)
         slow = {fq: "cadical-uf" for fq, sv in want.items() if sv == "z3" and self.own.get(fq.split("::")[-1]) is not None
